@@ -91,6 +91,9 @@ func genC03(r *Rng) *C03Case {
 		cs.Inc = map[string][]*TNode{}
 		for _, n := range []string{"inc0.html", "inc1.html"} {
 			ig := NewGen(r.Fork(strSeed(n)), r.Range(2, 10))
+			if r.Chance(0.3) {
+				ig.loop = 1 // the file is meant to be included from inside a loop: cycle / break / continue at its top level
+			}
 			cs.Inc[n] = ig.Template(cs.Envs[0])
 		}
 	}
